@@ -100,7 +100,7 @@ func TestC18Loop(t *testing.T) {
 	defer vt.Watch("TestC18Loop", 120*time.Second)()
 	rec := vt.For("C18")
 	rec.Rule("timer-driven rounds: a real agent.Agent (recording node with 0-4 local peers, scripted pool that lists every local peer as active and offers no hosts) runs its keep-alive loop in virtual time; the k-th keep-alive (k in 2..5) fails at the pool, in the update or in the follow-up peer request; oracle: no round - the failed one included - makes any call that changes the node (connect/disconnect/trust/un-trust), and the loop ends with the pool's error; non-trivial = a round failed while the node had peers")
-	rapid.Check(t, func(rt *rapid.T) {
+	check(t, func(rt *rapid.T) {
 		rapid.SyncTest(rt, func(rt *rapid.T) { c18LoopCase(rt, rec) })
 	})
 }
